@@ -67,7 +67,12 @@ def parse_show(out):
             grp = None
         elif line.startswith("\tOutputs given "):
             names = line[len("\tOutputs given "):].rstrip(":")
-            key = frozenset() if names == "no inputs" else frozenset(x.strip() for x in names.split(", "))
+            listed = [] if names == "no inputs" else [x.strip() for x in names.split(", ")]
+            key = frozenset(listed)
+            if len(listed) != len(key):
+                cur.setdefault("problems", []).append("a group heading names a type twice: " + line.strip())
+            if key in cur["groups"]:
+                cur.setdefault("problems", []).append("two groups with the same set of inputs: " + line.strip())
             grp = cur["groups"].setdefault(key, set())
         elif line.startswith("\t\t\t"):
             continue
@@ -93,6 +98,19 @@ def run_c19(rep, tier):
     root = scratch("wvc19")
     try:
         plan = []
+        # an outside input of composite type (*S as an injector argument) needed by several providers: `show` must still list it once
+        r4 = random.Random(seed() * 977 + 19)
+        for p in progs:
+            for u in p.units:
+                if getattr(u, "shadow", False) or r4.random() < 0.5:
+                    continue
+                args_ = [it["outs"][0] for it in u.items if it["kind"] == "arg" and it["outs"][0][0] == "p"]
+                funcs_ = [it for it in u.items if it["kind"] == "func" and not it.get("variadic")]
+                if args_ and len(funcs_) >= 2:
+                    t = r4.choice(args_)
+                    for it in r4.sample(funcs_, 2):
+                        if t not in it["deps"] and t not in it["outs"] and ("v", t[1]) not in it["outs"]:
+                            it["deps"] = list(it["deps"]) + [t]
         for p in progs:
             kind = rng.choice(KINDS) if p not in libheavy else "unexported"
             p.c19 = kind
@@ -173,6 +191,9 @@ def run_c19(rep, tier):
             # show
             if crc == 0 and src_ == 0:
                 shown, injectors = parse_show(sout)
+                for sid_, sh_ in shown.items():
+                    for pr_ in sh_.get("problems", [])[:2]:
+                        why.append("show output for %s: %s" % (sid_, pr_))
                 for u in p.units:
                     inj = '"%s".%s' % (p.path(u.inj["pkg"]), u.inj["name"])
                     if inj not in injectors:
